@@ -73,7 +73,10 @@ def main(args):
             for sid in ids:
                 meta = json.load(open(os.path.join(SEEDED, sid, "meta.json")))
                 target = meta.get("property", sid[:3])
-                checks = reg if (allchecks or meta.get("expect") == "green") else ([target] if target in reg else [])
+                if meta.get("expect") == "green" and meta.get("checks") and not allchecks:
+                    checks = [c for c in meta["checks"] if c in reg]      # the checks its files can influence
+                else:
+                    checks = reg if (allchecks or meta.get("expect") == "green") else ([target] if target in reg else [])
                 if not checks:
                     print("%s: target %s has no registered check yet" % (sid, target))
                     continue
